@@ -5,6 +5,8 @@ import Percival.Proofs.AfStep
 import Percival.Proofs.UpStep
 import Percival.Proofs.AfMonSound
 import Percival.Proofs.UpMonSound
+import Percival.Proofs.UpMonSoundG
+import Percival.Proofs.AfAns
 /-!
 # C14 — allocation failure is reported, leaves objects unchanged and leaks nothing (proof-level part)
 
@@ -675,5 +677,193 @@ theorem up_monitor_accepts_model_partial (ops : List UpStep.Op) (wf : WFRun {} o
     ∀ p ∈ (UpStep.runOps {} ops).zip ops,
       (Spec.UpMon.monStep () (UpStep.kindOf p.2) p.1.2.ans).2 = none :=
   up_run_sound {} ops uinv_init wf
+
+/-! ### `WF` is an invariant: the full statements
+
+`Proofs/UpMonSoundG.lean`.  `UInvC s n` = `UInv s` and `CInv (tables s.w) n`: at most `n` connects are outstanding in the
+world, and every outstanding `network_write` and every buffered writer sits on a slot descriptor (≥ 64).  With at most
+60 connects outstanding the descriptor `freshFd` picks (the lowest one ≥ 3 that is not the socket of an outstanding
+connect) is below 64 and not a connect's socket, so — the registry being exactly the registrations the objects hold
+(`Inv.regNet`) — it has no write registration; the timers are those of the connects (`Inv.regTm`).  `OpsOk ops`
+(decidable on the op list): no `nc_start` / `hq_start` line is reached with more than 60 such lines since the last `end`
+(`opsOk_of_count`: in particular every op list with at most 61 of them).  Nothing is assumed about handles, slots, lengths,
+address patterns or timeouts (`Driver/Upmodel.parseOp` accepts any number; any `timeo` is within `Ready`).  The bound
+cannot be dropped (last example). -/
+
+open Percival.Proofs.UpMonSound in
+/-- **One line, no hypothesis on the state beyond the invariants** (`n` bounds the connects outstanding; a connect
+line needs `n ≤ 60`): the monitor accepts the line `pmodel upmodel` prints, and the invariants hold afterwards with the
+bound `budget n op` (`0` after `end`, `n + 1` after a connect line, `n` otherwise). -/
+theorem up_monitor_accepts_model_step (s : UpStep.S) (op : UpStep.Op) (n : Nat) (h : UInvC s n)
+    (hn : isConn op = true → n ≤ 60) :
+    (Spec.UpMon.monStep () (UpStep.kindOf op) (UpStep.stepOp s op).2.ans).2 = none ∧
+    UInvC (UpStep.stepOp s op).1 (budget n op) :=
+  up_step_sound_full s op n h hn
+
+example : Proofs.UpMonSound.UInvC ({} : UpStep.S) 0 := Proofs.UpMonSound.uinvC_init
+/-- `WF` — the hypothesis of `up_monitor_accepts_model_step_partial` — is now a theorem, also for a connect line -/
+example : Proofs.UpMonSound.WF {} (.ncStart 0 [.failNow, .success] (some 2500000)) :=
+  Proofs.UpMonSound.wf_of_cinv _ _ 0 Proofs.UpMonSound.uinvC_init.u Proofs.UpMonSound.uinvC_init.c (fun _ => by decide)
+/-- the connect is made, on descriptor 3; under `failat 2` (the request after the cookie: setting up the timer) it fails with one refusal -/
+example :
+    UpStep.callOf {} (.ncStart 0 [.failNow, .success] (some 2500000)) =
+      some (.connect [.failNow, .success] (some 2500000) 3) ∧
+    (UpStep.stepOp (UpStep.stepOp {} (.failat 2)).1 (.ncStart 0 [.failNow, .success] (some 2500000))).2.ans =
+      { head := .fail, ntoks := 2, rf := some 1 } := ⟨rfl, by decide +kernel⟩
+
+open Percival.Proofs.UpMonSound in
+/-- **Whole cases from the initial state** (the full statement of `up_monitor_accepts_model_partial`): for every op
+list satisfying `OpsOk`, under whatever failure schedules the case sets, `Spec.UpMon.monStep` accepts every line
+`Model.UpStep.stepOp` answers — a failure always comes with `rf > 0`, a release is never `model-contract`, `end`
+shows `live=0 leaked=0`. -/
+theorem up_monitor_accepts_model (ops : List UpStep.Op) (hok : OpsOk ops) :
+    ∀ p ∈ (UpStep.runOps {} ops).zip ops,
+      (Spec.UpMon.monStep () (UpStep.kindOf p.2) p.1.2.ans).2 = none :=
+  up_run_sound_full ops hok
+
+/-- the generator's fixed sequence (`tools/props/c14.py`, `bases_upstart`: every start made twice, every cancel /
+free) under `failat 11` satisfies `OpsOk`; so does every case with at most 61 connect lines -/
+example : Proofs.UpMonSound.OpsOk [.failat 11, .start .read 0 0, .start .read 0 0, .start .write 0 0, .start .write 0 0,
+    .start .accept 0 1, .start .accept 0 1, .ncStart 0 [.success] (some 1000000), .ncStart 0 [.success] (some 1000000),
+    .ncStart 1 [] none, .ncStart 1 [] none, .nbrInit 0 2, .nbrInit 0 2, .nbrWait 0 0, .nbrWait 0 0, .rel .nbrCancel 0,
+    .nbrWait 0 9000, .nbrWait 0 9000, .nbwInit 0 3, .nbwInit 0 3, .nbwWrite 0 10, .nbwWrite 0 5000, .nbwReserve 0 100,
+    .nbwReserve 0 100, .nbwConsume 0 100, .hqStart 0 [.success] 3, .hqStart 0 [.success] 3, .rel .hqCancel 0,
+    .rel .nbwFree 0, .rel .nbrCancel 0, .rel .nbrFree 0, .rel .ncCancel 1, .rel .ncCancel 0, .rel .naCancel 0,
+    .rel .nwCancel 0, .rel .nrCancel 0, .end_] := by decide
+example (ops : List UpStep.Op) (h : ops.countP Proofs.UpMonSound.isConn ≤ 61) : Proofs.UpMonSound.OpsOk ops :=
+  Proofs.UpMonSound.opsOk_of_count ops h
+
+/-- without `OpsOk` the statement is false for the model: a `network_write` on slot 0 (descriptor 64) and 62
+connects — 32 `nc_start`, 30 `hq_start` — outstanding; the model's `freshFd` gives the 62nd the descriptor 64, the
+registration answers EEXIST, the line is `fail rf=0`.  (The harness' `socket()` would return 88: the model follows
+the kernel's choice of descriptor only below 60.) -/
+example :
+    let ops : List UpStep.Op := .start .write 0 0 ::
+      ((List.range 32).map fun i => UpStep.Op.ncStart i [.success] none) ++
+      ((List.range 30).map fun i => UpStep.Op.hqStart i [.success] 0)
+    (((UpStep.runOps {} ops).zip ops).all fun p =>
+      (Spec.UpMon.monStep () (UpStep.kindOf p.2) p.1.2.ans).2 == none) = false := by decide +kernel
+
+/-! ## The monitors read the printed answer (`pmodel afmon` / `pmodel upmon` on the text `pmodel af` / `pmodel upmodel` print)
+
+The soundness theorems above feed `Out.ans` to `monStep`.  `Driver/Af.render o` / `Driver/Upmodel.render o` is **by
+definition** the tokens `l1Toks o` joined by single spaces, then ` | ` and the L2 part; the theorems below say that
+`Driver/Afmon.parseAns` / `Driver/Upmon.parseAns` read from exactly these tokens the typed answer `o.ans` — printing and
+reading of numbers (`Nat.repr`, `Int.repr`, `String.toNat?`; a negative `live=` is unreadable), the `key=value` reading
+(`kvOf`), `id=none`, the `,`-separated ids of `ran=` and `-` included — for **every** typed output (no side condition),
+that no token contains a space (cutting the L1 text at the spaces with `String.split` gives the tokens back), and that
+`pmodel upmon` reduces an operation line to the `Kind` of the operation `pmodel upmodel` reads from it (`pmodel afmon`
+reads the operation line with `pmodel af`'s own `parseOp`).  Not covered: that `Driver/Loop.loopMon` cuts the line with
+`String.trimAscii` / `String.splitOn " "` (a different splitting function) and that `tools/vlib.py` cuts at ` | ` —
+`KAT/AfAns.lean` evaluates these on an output of every shape and on the outputs of a run (`*_loop_line_partial` below
+has the loop's cut as its hypothesis). -/
+
+open Percival.Proofs.AfAns in
+/-- **`pmodel afmon` reads `Out.ans`** from the L1 tokens `pmodel af` prints, for every typed output. -/
+theorem af_monitor_reads_printed_answer (o : AfStep.Out) :
+    Driver.Afmon.parseAns (Driver.Af.l1Toks o) = o.ans ∧
+    Driver.Dsmon.splitCh ' ' (" ".intercalate (Driver.Af.l1Toks o)) = Driver.Af.l1Toks o ∧
+    Driver.Af.render o =
+      " ".intercalate (Driver.Af.l1Toks o) ++ (match Driver.Af.l2Str o with | some s => " | " ++ s | none => "") :=
+  ⟨af_parseAns_l1Toks o, af_split_l1 o, rfl⟩
+
+/-- the tokens of real lines: `fail rf=1 id=none | …`, `ok rf=0 ran=7,8 | …`, `exists rf=0 | …`, `end live=0 leaked=0 | n=17` -/
+example : Driver.Af.l1Toks (.heap false 1 (some none) { a := [3], hal := 32, c := { live := 3, req := [24] } }) =
+      ["fail", "rf=1", "id=none"] ∧
+    Driver.Af.l1Toks (.ev .ok 0 (some [7, 8]) ⟨[], 32, none, none, (0, 4096), (0, 4096), ⟨3, []⟩⟩) = ["ok", "rf=0", "ran=7,8"] ∧
+    Driver.Af.l1Toks (.ev .exists_ 0 none ⟨[], 32, none, none, (0, 4096), (0, 4096), ⟨3, []⟩⟩) = ["exists", "rf=0"] ∧
+    Driver.Af.l1Toks (.end_ 0 17) = ["end", "live=0", "leaked=0"] := by decide +kernel
+
+open Percival.Proofs.AfAns in
+/-- **`pmodel upmon` reads `Out.ans`** from the L1 tokens `pmodel upmodel` prints, for every typed output, and the
+`Kind` of the operation from the operation line. -/
+theorem up_monitor_reads_printed_answer (o : UpStep.Out) :
+    Driver.Upmon.parseAns (Driver.Upmodel.l1Toks o) = o.ans ∧
+    Driver.Dsmon.splitCh ' ' (" ".intercalate (Driver.Upmodel.l1Toks o)) = Driver.Upmodel.l1Toks o ∧
+    Driver.Upmodel.render o =
+      " ".intercalate (Driver.Upmodel.l1Toks o) ++ (match Driver.Upmodel.l2Str o with | some s => " | " ++ s | none => "") ∧
+    (∀ toks op, Driver.Upmodel.parseOp toks = some op → Driver.Upmon.parseKind toks = UpStep.kindOf op) :=
+  ⟨up_parseAns_l1Toks o, up_split_l1 o, rfl, up_parseKind⟩
+
+example : Driver.Upmodel.l1Toks (.line false 1 { c := { live := 3, req := [56] }, socks := [], imm := 0, tm := 0, pools := [] }) =
+      ["fail", "rf=1"] ∧
+    Driver.Upmodel.l1Toks (.end_ (-1) 17 (some (2, 1))) = ["end", "live=-1", "leaked=0"] ∧
+    Driver.Upmodel.l1Toks (.word .modelContract) = ["model-contract"] := by decide +kernel
+
+open Percival.Proofs.AfAns in
+/-- **Every case of component `events`, at the level of the text the two executables exchange.**  For every list of
+operation lines (token lists) that `pmodel af` can read — `ops` being what it reads — and that is within `OpsOk`:
+the lines `pmodel af` prints (`afPrinted`: `Driver/Af.step` along the case) are `render` of the outputs of `runOps`, and
+**`Driver/Afmon.step` — the whole function the monitor executable applies to (operation line, answer line) — run along
+the case on the L1 tokens the model prints, answers `ok` on every line** (`afVerdicts`). -/
+theorem af_monitor_accepts_printed_run (lines : List (List String)) (ops : List Spec.AfMon.Op)
+    (hp : lines.mapM Driver.Af.parseOp = some ops) (hok : Proofs.AfMonSound.OpsOk ops) :
+    afPrinted {} lines = (AfStep.runOps {} ops).map (fun r => Driver.Af.render r.2) ∧
+    afVerdicts {} (lines.zip ((AfStep.runOps {} ops).map fun r => Driver.Af.l1Toks r.2)) =
+      List.replicate lines.length "ok" :=
+  ⟨af_printed_eq lines ops {} hp, af_verdicts_ok lines ops {} {} hp (monitor_accepts_model ops hok)⟩
+
+/-- operation lines that are read as (a part of) the demonstration case of `monitor_accepts_model` -/
+example : [["failat", toString (5 : Nat)], ["h_init"], ["h_add", toString (5 : Nat), toString (7 : Int)], ["h_min"],
+      ["reg_net", toString (2 : Nat), toString (4 : Nat), toString (0 : Nat)], ["run"], ["end"]].mapM Driver.Af.parseOp =
+    some [.failat 5, .hInit, .hAdd 5 7, .hMin, .regNet 2 4 false, .run, .end_] := by
+  simp only [List.mapM_cons, List.mapM_nil, Driver.Af.parseOp, Proofs.DsAns.nat_rt, Proofs.DsAns.int_rt]
+  rfl
+/-- the monitor does reject what it reads from printed tokens: `fail rf=0` as the answer to `h_init` -/
+example : Driver.Af.l1Toks (.heap false 0 none ⟨[], 0, ⟨0, []⟩⟩) = ["fail", "rf=0"] ∧
+    (Spec.AfMon.monStep {} .hInit (Driver.Afmon.parseAns (Driver.Af.l1Toks (.heap false 0 none ⟨[], 0, ⟨0, []⟩⟩)))).2 ≠ none := by
+  rw [Proofs.AfAns.af_parseAns_l1Toks]
+  decide +kernel
+
+open Percival.Proofs.AfAns Percival.Proofs.UpMonSound in
+/-- **Every case of component `upstart`, at the level of the text**: for every list of operation lines that
+`pmodel upmodel` can read as `ops`, within `OpsOk` (at most 61 connect lines between two `end`s), the lines it prints
+are `render` of the outputs of `runOps`, and `Driver/Upmon.step` run along the case on the L1 tokens the model prints
+answers `ok` on every line. -/
+theorem up_monitor_accepts_printed_run (lines : List (List String)) (ops : List UpStep.Op)
+    (hp : lines.mapM Driver.Upmodel.parseOp = some ops) (hok : OpsOk ops) :
+    upPrinted {} lines = (UpStep.runOps {} ops).map (fun r => Driver.Upmodel.render r.2) ∧
+    upVerdicts () (lines.zip ((UpStep.runOps {} ops).map fun r => Driver.Upmodel.l1Toks r.2)) =
+      List.replicate lines.length "ok" :=
+  ⟨up_printed_eq lines ops {} hp, up_verdicts_ok lines ops {} hp (up_monitor_accepts_model ops hok)⟩
+
+example : [["failat", toString (3 : Nat)], ["nr_start", toString (0 : Nat), toString (0 : Nat)],
+      ["nc_start", toString (1 : Nat), "-", "-"], ["hq_start", toString (0 : Nat), "-", toString (17 : Nat)],
+      ["end"]].mapM Driver.Upmodel.parseOp =
+    some [.failat 3, .start .read 0 0, .ncStart 1 [] none, .hqStart 0 [] 17, .end_] := by
+  simp only [List.mapM_cons, List.mapM_nil, Driver.Upmodel.parseOp, Driver.Upmodel.parsePattern, Proofs.DsAns.nat_rt,
+    if_true]
+  rfl
+/-- the monitor does reject what it reads from printed tokens: `fail rf=0` as the answer to a call; a `BAD=` word -/
+example : Driver.Upmodel.l1Toks (.line false 0 ⟨⟨0, []⟩, [], 0, 0, []⟩) = ["fail", "rf=0"] ∧
+    (Spec.UpMon.monStep () .call (Driver.Upmon.parseAns (Driver.Upmodel.l1Toks (.line false 0 ⟨⟨0, []⟩, [], 0, 0, []⟩)))).2 ≠ none ∧
+    (Driver.Upmon.parseAns ["ok", "BAD=bytes"]).bad = some "BAD=bytes" := by
+  rw [Proofs.AfAns.up_parseAns_l1Toks]
+  decide +kernel
+
+/- Full statements (NOT proved): for every output `o`, the tokens `Driver.loopMon` cuts out of the line
+`"> " ++ <L1 part of render o> ++ "\n"` are `">" :: ans` with `parseAns ans = o.ans`:
+    theorem af_monitor_reads_loop_line (o : AfStep.Out) :
+      ∃ ans, loopToks (afMonLine o) = ">" :: ans ∧ Driver.Afmon.parseAns ans = o.ans
+    theorem up_monitor_reads_loop_line (o : UpStep.Out) :
+      ∃ ans, loopToks (upMonLine o) = ">" :: ans ∧ Driver.Upmon.parseAns ans = o.ans
+   Missing: that the loop's cut of that line — `String.trimAscii`, the legacy `String.splitOn " "` (works on raw byte
+   positions, no lemmas in core), dropping the empty tokens — is `">"` followed by the pieces of the L1 text between
+   its spaces (`afLoopCutOk o` / `upLoopCutOk o`, the hypothesis `hcut` below; `KAT/AfAns.lean` evaluates it at every
+   build on an output of every shape and on the outputs of a run).  Everything after that cut is proved. -/
+open Percival.Proofs.AfAns in
+theorem af_monitor_reads_loop_line_partial (o : AfStep.Out) (hcut : afLoopCutOk o = true) :
+    ∃ ans, loopToks (afMonLine o) = ">" :: ans ∧ Driver.Afmon.parseAns ans = o.ans :=
+  af_reads_loop_line o hcut
+
+open Percival.Proofs.AfAns in
+theorem up_monitor_reads_loop_line_partial (o : UpStep.Out) (hcut : upLoopCutOk o = true) :
+    ∃ ans, loopToks (upMonLine o) = ">" :: ans ∧ Driver.Upmon.parseAns ans = o.ans :=
+  up_reads_loop_line o hcut
+
+open Percival.Proofs.AfAns in
+/-- the lines in question for real outputs -/
+example : afMonLine (.heap true 0 (some (some 5)) { a := [5], hal := 32, c := { live := 2, req := [] } }) = "> ok rf=0 id=5\n" ∧
+    upMonLine (.end_ 0 17 none) = "> end live=0 leaked=0\n" := by decide +kernel
 
 end Percival.C14
